@@ -51,6 +51,7 @@ HARNESS_FILES = {
     "bitrepr_hdr.rs": ("src/component/bitrepr.rs", "verif_hdr"),
     "coding_frm.rs": ("src/coding.rs", "verif_frm"),
     "parser_frm.rs": ("src/component/parser.rs", "verif_frm"),
+    "source_md5.rs": ("src/source.rs", "verif_md5"),
     "rice_parts.rs": ("src/rice.rs", "verif_parts"),
     "datatype_pre.rs": ("src/component/datatype.rs", "verif_pre"),
     "decode_sig.rs": ("src/component/decode.rs", "verif_sig"),
@@ -285,6 +286,19 @@ def build(dest, havoc=False, with_contracts=True, only_files=None, extra=None):
             lines[i:i] = ins
             open(target, "w").write("\n".join(lines))
             info["contracts"].append({"file": c["file"], "fn": c["anchor"], "attrs": c["attrs"]})
+
+    # O6 (only when the md5 units are part of the build) ---------------------------------------
+    # The md-5 dependency is replaced by a RECORDING stand-in (kani/md5_spec): MD5 itself cannot be
+    # run inside CBMC, and what the properties need of it is "a function of the bytes fed".
+    if only_files is not None and "source_md5.rs" in only_files:
+        shutil.copytree(os.path.join(KANI_DIR, "md5_spec"), os.path.join(dest, "verif_md5"))
+        ct = os.path.join(dest, "Cargo.toml")
+        cs = open(ct).read()
+        if "[patch.crates-io]" in cs:
+            raise OverlayError("O6: Cargo.toml already has a [patch.crates-io] section")
+        open(ct, "a").write('\n[patch.crates-io]\nmd-5 = { path = "verif_md5" }\n')
+        info["replaced"].append("Cargo.toml: dependency md-5 patched to the recording stand-in "
+                                "kani/md5_spec (assumed contract: digest = function of the fed bytes)")
 
     # O5 ---------------------------------------------------------------------------------------
     info["diff_sha"] = verify_additions_only(dest)
